@@ -33,6 +33,24 @@ def indent(text, n):
 def fill(name, slot=None, child=None, grand=None):
     """Text of production `name` with `slot` filled by `child` (whose first slot may hold `grand`)."""
     t = P[name][1]
+    # block slots that are not filled by a child get *distinct* bodies (`_b1 = 1`, `_b2 = 2` ...): a parser
+    # that attaches the else suite where the finally suite belongs must not go unnoticed
+    for s in ("B", "BB"):
+        tok = L + s + R_
+        k = 0
+        while tok in t and not (s == slot and child is not None and k == 0):
+            k += 1
+            body = ("    " if s == "B" else "        ") + f"_b{k} = {k}"
+            # the first occurrence is kept for the child when this slot is being filled
+            t = t.replace(tok, body, 1)
+        if s == slot and child is not None and tok in t:
+            # first occurrence -> child (handled below); the others -> distinct defaults
+            head, sep, rest = t.partition(tok)
+            k = 1
+            while tok in rest:
+                k += 1
+                rest = rest.replace(tok, ("    " if s == "B" else "        ") + f"_b{k} = {k}", 1)
+            t = head + sep + rest
     for s in ("E2", "E", "T", "BB", "B"):
         tok = L + s + R_
         if tok not in t:
@@ -108,6 +126,14 @@ def layout(src, kind, rng=None):
         return first[:i] + " \\\n    " + first[i + 1:] + body[len(first):] + "\n"
     if kind == "form_feed":
         return "\x0c" + body + "\n"
+    if kind == "col0_operator":
+        # a boolean / comparison operator as the first token, at column 0, of a continuation line in brackets
+        if "\n" in body or "'" in body or '"' in body or "#" in body:
+            return body + "\n"
+        for op in (" and ", " or ", " not in ", " is not ", " if ", " else ", " in ", " is "):
+            if op in body:
+                return "_v = (" + body.replace(op, "\n" + op.strip() + " ", 1) + ")\n" if "=" not in body and ":" not in body else body + "\n"
+        return body + "\n"
     if kind == "semicolon_end":
         return body + ";\n" if "\n" not in body and not body.rstrip().endswith(":") else body + "\n"
     raise ValueError(kind)
